@@ -96,8 +96,13 @@ Lit == [k |-> "lit"]
 UseV(n, s) == [k |-> "use", n |-> n, site |-> s, tgt |-> Resolve(n)]
 \* req = "int": the position needs an int (field initialiser, let value, if condition); "any": dump, defvar
 \* excl: a name that may not appear (a field inside its own initialiser / override is an ambiguity zone)
+\* "amb": a use of a field that some let on the way overrides.  Where go-to-definition must land (the field's declaration or the
+\* overriding let) is an ambiguity zone and carries no expectation (tgt = -1); what IS specified is C19's coherence: hover there shows
+\* the symbol go-to-definition jumps to
+AmbNow == {n \in FieldN : Resolve(n) # 0 /\ Ambiguous(n)}
 Vals(req, excl, withDead) ==
    {Lit} \cup {UseV(n, ns + 1) : n \in {m \in Usable \ excl : req = "any" \/ TyOf(m) = "int"}}
+         \cup {[k |-> "amb", n |-> n, site |-> ns + 1, tgt |-> 0 - 1] : n \in AmbNow \ excl}
          \cup (IF withDead THEN {[k |-> "dead", n |-> n, site |-> ns + 1, tgt |-> 0] : n \in DeadNow \ excl} ELSE {})
 TyOfVal(v) == IF v.k = "use" THEN TyOf(v.n) ELSE "int"
 SitesIn(v) == IF v.k = "lit" THEN 0 ELSE 1
